@@ -254,6 +254,12 @@ def run_trace_shards(ctx, module, shard_files, metabase, env_extra=None, paralle
 # ------------------------------------------------------------------------------------------------
 # harness
 # ------------------------------------------------------------------------------------------------
+class HarnessKilled(ToolError):
+    def __init__(self, rc, msg):
+        ToolError.__init__(self, msg)
+        self.rc = rc
+
+
 def run_harness(ctx, args, timeout=3600):
     env = dict(os.environ)
     env['RUST_BACKTRACE'] = '0'
@@ -265,6 +271,10 @@ def run_harness(ctx, args, timeout=3600):
         # the watchdog saw a call that did not return: reported as data (C12), not as a tool error
         last = p.stdout.strip().splitlines()[-1]
         return json.loads(last)
+    if p.returncode < 0 or p.returncode in (134, 139):
+        # the process was killed by a signal (stack overflow, allocation failure -> abort, ...): the code under test took
+        # the harness down; callers that know their input lines locate the offending one and report it as data (C12)
+        raise HarnessKilled(p.returncode, 'harness %s killed (rc=%d): %s' % (args[:1], p.returncode, (p.stderr or p.stdout)[-1500:]))
     if p.returncode != 0:
         raise ToolError('harness %s failed (rc=%d): %s' % (args[:1], p.returncode, (p.stderr or p.stdout)[-2000:]))
     last = p.stdout.strip().splitlines()[-1] if p.stdout.strip() else '{}'
